@@ -139,11 +139,18 @@ static bool GKC_streq(GKC_string s, const char *lit)
 /* CoreParser::toIndex(const string&, int&) (baseparser.cpp:114): false and index untouched, or true and
    index = static_cast<int>(atof(..)) -- ANY int (white space and digits only, but "99999999999" is such a string).
    Exclusion predicate of the finding "the announced dimension is not bounded": the converted value is <= 2^15. */
+int gv_ti_n;                   /* ghost: successful toIndex conversions of this call, their targets and values */
+int *gv_ti_target[2];
+int gv_ti_val[2];
 static bool GKC_toIndex(const struct GKFparser *self, GKC_string s, int *index)
 {
   bool ok;
   int v;
   (void)self; (void)s;
+  if (ok) {
+    if (gv_ti_n >= 0 && gv_ti_n < 2) { gv_ti_target[gv_ti_n] = index; gv_ti_val[gv_ti_n] = v; }
+    if (gv_ti_n < 1000) gv_ti_n = gv_ti_n + 1;
+  }
 #ifdef GV_EXCL_COV_DIM_UNBOUNDED
   __CPROVER_assume(v <= GKC_MAXDIM);
 #endif
@@ -178,13 +185,21 @@ GV_CANARY("GKC_error entry");
 //@ contract GKC_process_cov
 __CPROVER_requires(GKF_SELF_OK(self))
 __CPROVER_requires(self->errCode == 0 && self->state != state_error && GKF_LINE_OK)
-__CPROVER_requires(GKC_ATTS_OK(atts) && gv_atts0 == atts)
-__CPROVER_assigns(self->state, self->errCode, self->errLineNumber, self->idim, self->iband, gv_state0, gv_errline0)
+__CPROVER_requires(GKC_ATTS_OK(atts) && gv_atts0 == atts && gv_ti_n == 0)
+__CPROVER_assigns(self->state, self->errCode, self->errLineNumber, self->idim, self->iband, gv_state0, gv_errline0,
+                  gv_ti_n, gv_ti_target[0], gv_ti_target[1], gv_ti_val[0], gv_ti_val[1])
 __CPROVER_ensures(__CPROVER_return_value == 0 || __CPROVER_return_value == 1)
 /* accepted: nothing recorded, the automaton is not moved, and the dimensions are those of a band matrix */
 __CPROVER_ensures(__CPROVER_return_value == 0 ==>
                   (self->errCode == 0 && self->state == __CPROVER_old(self->state) &&
                    self->errLineNumber == __CPROVER_old(self->errLineNumber) && GKC_DIMS_OK(self)))
+/* ... which are the two numbers toIndex converted, one into idim and one into iband */
+__CPROVER_ensures(__CPROVER_return_value == 0 ==>
+                  (gv_ti_n == 2 &&
+                   ((gv_ti_target[0] == &self->idim && gv_ti_target[1] == &self->iband &&
+                     self->idim == gv_ti_val[0] && self->iband == gv_ti_val[1]) ||
+                    (gv_ti_target[0] == &self->iband && gv_ti_target[1] == &self->idim &&
+                     self->iband == gv_ti_val[0] && self->idim == gv_ti_val[1]))))
 /* ... whose element count idim*(iband+1) fits an int (finish_cov and CovMat::reset compute it in int) */
 __CPROVER_ensures(__CPROVER_return_value == 0 ==> self->idim <= GKC_MAXDIM)
 /* refused: located diagnostic */
@@ -278,7 +293,7 @@ __CPROVER_decreases(OFF(self->cov_mat_data_e) - OFF(i))
 GV_INST(self->idim <= GKC_MAXDIM && GKC_LEMMA_TOTAL_HYP(self->idim, self->iband),
         GKC_LEMMA_TOTAL_CONCL(self->idim, self->iband));
 //@ at GKC_finish_cov word
-gv_words = gv_words + 1;
+if (w != 0) gv_words = gv_words + 1;      /* placed in front of `if (w.size())`: a non-empty word was found */
 //@ at GKC_finish_cov store
 gv_lemma_cov_step(self->idim, self->iband, row, col);
 //@ end
@@ -321,6 +336,7 @@ void h_process_cov(void)
   atts[2 * n] = NULL;                                              /* expat's terminator */
   gv_natts = n;
   gv_atts0 = atts;
+  gv_ti_n = 0;
   int r = GKC_process_cov(&P, atts);
   __CPROVER_assert(r != 0 || GKC_DIMS_OK(&P), "accepted <cov-mat>: 1 <= dim, 0 <= band < dim");
   GV_CANARY("h_process_cov end");
